@@ -42,7 +42,7 @@ MANIFEST = {
     "category": "exploration",
     "technique": "stateful model-based exploration of failure/recovery event sequences on a virtual clock: bounded-exhaustive to a depth bound over a reduced alphabet x all retry configurations, plus Hypothesis sequences; invariants over a contact log and a routing log observed through the client_class and hasher seams",
     "text": "Servers are scripted objects (or real Clients over a fake network) whose every contact is logged with the virtual time; routing decisions are logged by a hasher subclass together with the rotation they saw. The probing bounds, eviction, rerouting and recovery clauses of the property are evaluated as invariants over these two logs for every event sequence up to the depth bound (exhaustive) and for long random sequences.",
-    "note": "Only socket-level errors (OSError family) count as 'failing'; non-key-addressed calls are not mixed in; recovery traffic is one call per 0.9 retry_timeouts (random part) or per 7 s (exhaustive part).",
+    "note": "Only socket-level errors (OSError family) count as 'failing'; non-key-addressed calls are mixed in only in part broadcasts-in-between (flush_all: its contacts do not count towards the bounds, what it finds counts as a failure); the order-of-events rules (evicted-early, evicted-without-failure, placed-before-revival) are evaluated on the scripted back-end; recovery traffic is one call per 0.9 retry_timeouts (random part) or per 7 s (exhaustive part).",
     "design_ref": "DESIGN.md 3/C13",
 }
 ASSUMPTIONS = [
